@@ -599,6 +599,8 @@ func (c *DutiesCache) SyncCommDutiesCache(ctx context.Context, epoch eth2p0.Epoc
 
 		for _, d := range dutiesForEpoch.duties {
 			if _, hit := requestedSet[d.ValidatorIndex]; hit {
+				// The struct copy still shares its index slice with the cached duty.
+				d.ValidatorSyncCommitteeIndices = slices.Clone(d.ValidatorSyncCommitteeIndices)
 				dutiesResult = append(dutiesResult, &d)
 			}
 		}
@@ -630,6 +632,8 @@ func (c *DutiesCache) SyncCommDutiesCache(ctx context.Context, epoch eth2p0.Epoc
 		}
 
 		d := *duty
+		// The cached copy must not share its index slice with the duty returned to the caller.
+		d.ValidatorSyncCommitteeIndices = slices.Clone(duty.ValidatorSyncCommitteeIndices)
 		dutiesDeref = append(dutiesDeref, d)
 	}
 
